@@ -23,7 +23,9 @@ MIN_SITES = 1300
 
 def run(tier, seed):
     V = common.Verdict("C07", tier, seed)
-    plan = [("K17", None), ("K17A", DELTA_K17A if tier == "quick" else None), ("K20", DELTA_K20 if tier == "quick" else None)]
+    # K20C: the arms std::is_constant_evaluated() selects in a constant evaluation, compiled as ordinary code (DESIGN 11.11)
+    plan = [("K17", None), ("K17A", DELTA_K17A if tier == "quick" else None), ("K20", DELTA_K20 if tier == "quick" else None),
+            ("K20C", DELTA_K20 if tier == "quick" else None)]
     n_wr = 0
     n_sites = 0
     per_cfg = {}
